@@ -31,7 +31,7 @@ class ManagedBSE:
         s.W = ManagedWorld(prog, c['env'])
         s.M = s.W.M
         s.M.task_mode = not c['thread_mode']
-        s.tasks = [f'T{i + 1}' for i in range(c['tasks'])]
+        s.tasks = list(c.get('task_names') or [f'T{i + 1}' for i in range(c['tasks'])])
         s.probe_cache = {}
         s.nprobes = 0
         s.susp = {}
@@ -42,21 +42,33 @@ class ManagedBSE:
         lifos = [False, True] if s.cfg['lifo'] is None else [s.cfg['lifo']]
         for lifo in lifos:
             st = State()
-            ms = z3.BitVec('max_size', 64); st.assume(z3.ULE(ms, s.cfg['max_size_bound']))
+            if s.cfg.get('max_size_concrete') is not None:
+                ms = I(s.cfg['max_size_concrete'])
+            else:
+                ms = z3.BitVec('max_size', 64); st.assume(z3.ULE(ms, s.cfg['max_size_bound']))
             pt = tuple(s.tv_value(st, v, f'pool_{n}') for v, n in zip(s.cfg['pool_timeouts'], ('wait', 'create', 'recycle')))
             for st1, r in s.W.build_pool(st, ms, queue_lifo=lifo, timeouts=pt, runtime=s.cfg['runtime'], hooks=s.cfg['hooks']):
                 if st1.log and any(e[0] in ('create_call', 'hook_call', 'recycle_call', 'detach', 'pred_call') for e in st1.log):
                     st1.gset('flags', st1.gget('flags', ()) + ('build_called_user_code',))
+                st1.gset('build_log', st1.log)
                 if r[0] != 'ok' or r[1].variant != 'Ok':
                     st1.gset('build_result', r); out.append(st1); continue
                 proot = st1.alloc(payload(r[1]))
                 st1.gset('pool', proot); st1.gset('max_size', ms); st1.gset('lifo', lifo)
                 st1.gset('objs', {}); st1.gset('idleq', ()); st1.gset('trail', {}); st1.gset('resizes', ()); st1.gset('hand', ())
-                for t in s.tasks + ['C']:
+                for t in s.tasks + ['C', 'S']:
                     th = s.W.thread(st1, t); th.local = {'gets': 0, 'objs': (), 'nctl': 0}
                 st1.threads.pop('main', None)
                 st1.log = (('init', 'lifo' if lifo else 'fifo'),)
                 out.append(st1)
+        if s.cfg.get('prefix'):
+            # a prefix of operations executed atomically (task mode) before the exploration proper starts
+            saved = s.M.task_mode; s.M.task_mode = True
+            try:
+                for a in s.cfg['prefix']:
+                    out = [y for x in out if x.gget('pool') is not None for y in s.apply(x, tuple(a))]
+            finally:
+                s.M.task_mode = saved
         return out
 
     def tv_value(s, st, v, name):
@@ -70,6 +82,12 @@ class ManagedBSE:
     def actions(s, st):
         if st.gget('pool') is None: return []
         acts = []
+        for t in s.tasks + ['C']:
+            if st.threads[t].stack: acts.append(('step', t))
+        if s.cfg.get('max_preempt') is not None and acts:
+            # preemption bounding: while some thread is in the middle of an operation, starting or resuming another
+            # thread counts as a preemption
+            pass
         for t in s.tasks:
             th = st.threads[t]; L = th.local
             if th.stack: continue
@@ -83,7 +101,7 @@ class ManagedBSE:
                 if s.cfg['take']: acts.append(('take', t, i))
                 break      # objects held by one task are interchangeable up to renaming: act on the first only
         C = st.threads['C'].local
-        if C['nctl'] < s.cfg['max_ctl']:
+        if C['nctl'] < s.cfg['max_ctl'] and not st.threads['C'].stack:
             for a in s.cfg['ctl']:
                 if a == 'resize':
                     for n in s.cfg['resize_targets']: acts.append(('resize', n))
@@ -92,82 +110,164 @@ class ManagedBSE:
         return acts
 
     # ------------------------------------------------------------- apply
+    # Every harness operation is a small state machine (phases) whose MIR runs on the operation's thread.  In task mode
+    # an operation runs to completion; in thread mode it stops at every schedule point (`verif::point`, user callbacks)
+    # and is resumed by a ('step', thread) action.
+    def thread_of(s, a):
+        if a[0] in ('get', 'poll', 'cancel', 'drop', 'take', 'step'): return a[1]
+        if a[0] in ('resize', 'close') and len(a) > (2 if a[0] == 'resize' else 1): return a[-1]
+        return 'C'
+
     def apply(s, st, a):
-        st = st.clone(); st.logev('act',) if False else None
+        st = st.clone()
         st.log = st.log + (('act',) + tuple(a),)
         st.gset('last', None); st.gset('seen', ())
-        kind = a[0]; proot = st.gget('pool'); outs = []
+        t = s.thread_of(a)
+        th = st.threads[t]; th.at_point = None
+        if a[0] == 'step':
+            states = [st]
+        else:
+            states = s.begin(st, t, a)
+        outs = []
+        work = list(states)
+        while work:
+            x = work.pop()
+            thx = x.threads[t]
+            if thx.stack:
+                for y in s.M.run(x, t):
+                    if y.threads[t].stack:
+                        pt = y.threads[t].at_point
+                        op = y.threads[t].local.get('op')
+                        y.gset('last', {'act': a, 'op': op[0] if op else a, 'task': t, 'res': ('at_point', pt), 'done': False})
+                        outs.append(y)
+                    else: work.append(y)
+                continue
+            op = thx.local.get('op')
+            if op is None:
+                outs.append(x); continue
+            for y in s.op_next(x, t, op, thx.result): work.append(y)
+        for o in outs:
+            for th2 in o.threads.values():
+                if not th2.stack: th2.panicking = False; th2.result = None
+            last = o.gget('last') or {}
+            o.gset('pending_vio', tuple(s.digest(st, last.get('op', a), o)))
+        return outs
+
+    def set_op(s, st, t, a, phase, **data):
+        st.threads[t].local['op'] = (a, phase, data)
+
+    def end_op(s, st, t, a, res, **kw):
+        st.threads[t].local.pop('op', None)
+        d = {'act': a, 'op': a, 'task': t, 'res': res, 'done': True}; d.update(kw)
+        st.gset('last', d)
+        return [st]
+
+    def begin(s, st, t, a):
+        kind = a[0]; proot = st.gget('pool'); W = s.W; th = st.threads[t]; th.result = None
         if kind == 'get':
-            t = a[1]; tvs = s.cfg['timeout_variants'][a[2]]
-            tv = None
-            if tvs is not None:
-                vals = [s.tv_value(st, v, f'{t}_{st.threads[t].local["gets"]}_{n}') for v, n in zip(tvs, ('wait', 'create', 'recycle'))]
-                tv = Agg('Timeouts', [NONE if v is None else some(v) for v in vals])
-            st.threads[t].local['gets'] += 1
+            tvs = s.cfg['timeout_variants'][a[2]]
+            th.local['gets'] += 1
             s.note_get_start(st, t, tvs)
-            for st1, r in s.W.start_get(st, t, proot, tv):
-                fr = st1.alloc(r[1]); st1.threads[t].local['fut'] = fr
-                for st2, r2 in s.W.poll(st1, t, fr): outs.extend(s.after_poll(st2, t, r2, a))
-        elif kind == 'poll':
-            t = a[1]
-            for st2, r2 in s.W.poll(st, t, st.threads[t].local['fut']): outs.extend(s.after_poll(st2, t, r2, a))
-        elif kind == 'cancel':
-            t = a[1]; fr = st.threads[t].local.pop('fut'); fut = st.heap.pop(fr)
-            s.note_susp(fut)
-            for st2, r in s.W.drop(st, t, [fut]):
-                st2.gset('last', {'act': a, 'task': t, 'res': ('cancelled',) if r[0] == 'ok' else r})
-                outs.append(st2)
-        elif kind in ('drop', 'take'):
-            t = a[1]; L = st.threads[t].local; objs = list(L['objs']); oroot = objs.pop(a[2]); L['objs'] = tuple(objs)
+            s.set_op(st, t, a, 'started')
+            if tvs is None:
+                s.M.push_mir(st, th, W.F('::get'), [Ref(proot)])
+            else:
+                vals = [s.tv_value(st, v, f'{t}_{th.local["gets"]}_{n}') for v, n in zip(tvs, ('wait', 'create', 'recycle'))]
+                troot = st.alloc(Agg('Timeouts', [NONE if v is None else some(v) for v in vals]))
+                s.M.push_mir(st, th, W.F('::timeout_get'), [Ref(proot), Ref(troot)])
+            return [st]
+        if kind == 'poll':
+            s.set_op(st, t, a, 'polling')
+            return s.push_poll(st, t)
+        if kind == 'cancel':
+            fut = st.heap.pop(th.local.pop('fut')); s.note_susp(fut)
+            s.set_op(st, t, a, 'dropping', res=('cancelled',))
+            s.M.start_drop(st, th, [fut]); return [st]
+        if kind in ('drop', 'take'):
+            objs = list(th.local['objs']); oroot = objs.pop(a[2]); th.local['objs'] = tuple(objs)
             obj = st.heap.pop(oroot); oid = s.obj_id(st, obj)
             if kind == 'drop':
                 s.note_return(st, oid)
-                for st2, r in s.W.drop_object(st, t, obj):
-                    st2.gset('last', {'act': a, 'task': t, 'res': r, 'oid': oid}); outs.append(st2)
+                if st.gget('close_started') and not st.gget('closed_ret'): st.gset('close_overlap', True)
+                s.set_op(st, t, a, 'dropping', res=('ok',), oid=oid, after_close=bool(st.gget('closed_ret')))
+                s.M.start_drop(st, th, [obj])
             else:
-                for st2, r in s.W.take(st, t, obj):
-                    if r[0] == 'ok':
-                        s.W.env.g_obj(st2, oid, handed='+1')
-                        st2.logev('handed', oid, 'take')
-                        for st3, r3 in s.W.drop(st2, t, [r[1]]):
-                            st3.gset('last', {'act': a, 'task': t, 'res': ('ok', 'taken'), 'oid': oid}); outs.append(st3)
-                    else:
-                        st2.gset('last', {'act': a, 'task': t, 'res': r, 'oid': oid}); outs.append(st2)
-        elif kind == 'status':
-            st.threads['C'].local['nctl'] += 1
-            for st2, r in s.W.status(st, 'C', proot):
-                st2.gset('last', {'act': a, 'task': 'C', 'res': r}); outs.append(st2)
+                s.set_op(st, t, a, 'taking', oid=oid)
+                s.M.push_mir(st, th, W.F('::take'), [obj])
+            return [st]
+        C = st.threads['C'].local; C['nctl'] += 1
+        if kind == 'status':
+            s.set_op(st, t, a, 'simple'); s.M.push_mir(st, th, W.F('::status'), [Ref(proot)])
+        elif kind == 'is_closed':
+            s.set_op(st, t, a, 'simple'); s.M.push_mir(st, th, W.F('::is_closed'), [Ref(proot)])
         elif kind == 'resize':
-            st.threads['C'].local['nctl'] += 1
             st.gset('resizes', st.gget('resizes', ()) + (a[1],))
-            for st2, r in s.W.resize(st, 'C', proot, I(a[1])):
-                st2.gset('last', {'act': a, 'task': 'C', 'res': r}); outs.append(st2)
+            s.set_op(st, t, a, 'simple'); s.M.push_mir(st, th, W.F('::resize'), [Ref(proot), I(a[1])])
         elif kind == 'close':
-            st.threads['C'].local['nctl'] += 1
-            for st2, r in s.W.close(st, 'C', proot):
-                st2.gset('closed_ret', True)
-                st2.gset('last', {'act': a, 'task': 'C', 'res': r}); outs.append(st2)
+            st.gset('close_started', True)
+            if any(st.threads[x].stack and (st.threads[x].local.get('op') or (None,))[0][0] == 'drop' for x in s.tasks): st.gset('close_overlap', True)
+            s.set_op(st, t, a, 'simple'); s.M.push_mir(st, th, W.F('::close'), [Ref(proot)])
         elif kind == 'retain':
-            st.threads['C'].local['nctl'] += 1
             st.gset('pred_removed', ())
-            for st2, r in s.W.retain(st, 'C', proot):
-                if r[0] == 'ok':
-                    rr = r[1]; removed = rr.f[1].items(); ids = tuple(s.W.env.oid_of(s.M, st2, o) for o in removed)
-                    for oid in ids:
-                        s.W.env.g_obj(st2, oid, handed='+1'); st2.logev('handed', oid, 'retain')
-                    for st3, r3 in s.W.drop(st2, 'C', removed):
-                        st3.gset('last', {'act': a, 'task': 'C', 'res': ('ok', 'retain'), 'retained': rr.f[0], 'removed': ids,
-                                          'pred_removed': st3.gget('pred_removed', ())})
-                        outs.append(st3)
-                else:
-                    st2.gset('last', {'act': a, 'task': 'C', 'res': r}); outs.append(st2)
+            s.set_op(st, t, a, 'retaining')
+            s.M.push_mir(st, th, W.F('::retain'), [Ref(proot), Agg('Pred', [I(0)])])
         else:
             raise ValueError(a)
-        for o in outs:
-            for th in o.threads.values():
-                if not th.stack: th.panicking = False; th.result = None
-            o.gset('pending_vio', tuple(s.digest(st, a, o)))
-        return outs
+        return [st]
+
+    def push_poll(s, st, t):
+        th = st.threads[t]; th.result = None
+        r = s.M.dispatch(st, th, '<F as Future>::poll', [Agg('Pin', [Ref(th.local['fut'])]), UNIT])
+        if r is None: return [st]
+        out = []
+        for st2, flag in r:
+            out.append(st2)
+        return out
+
+    def op_next(s, st, t, op, result):
+        """the current phase of thread t's operation finished with `result` (('ok', value) | ('panic',) | ('abort',))"""
+        a, phase, data = op; th = st.threads[t]; L = th.local; th.result = None
+        if phase == 'started':          # get: future created -> first poll
+            if result[0] != 'ok': return s.end_op(st, t, a, ('panic',))
+            L['fut'] = st.alloc(result[1]); s.set_op(st, t, a, 'polling')
+            return s.push_poll(st, t)
+        if phase == 'polling':
+            if result[0] != 'ok':
+                # panic escaped get(): the future (now in state `panicked`) is dropped by the unwinding caller
+                fut = st.heap.pop(L.pop('fut'))
+                th.panicking = False
+                s.set_op(st, t, a, 'dropping', res=('panic',)); s.M.start_drop(st, th, [fut]); return [st]
+            p = result[1]
+            if p.variant == 'Pending': return s.end_op(st, t, a, ('pending',))
+            st.heap.pop(L.pop('fut'))
+            res = payload(p)
+            if res.variant == 'Ok':
+                obj = payload(res); oid = s.obj_id(st, obj)
+                oroot = st.alloc(obj); L['objs'] = L['objs'] + (oroot,)
+                s.W.env.g_obj(st, oid, handouts='+1'); st.logev('handout', oid, t)
+                return s.end_op(st, t, a, ('ok', 'object'), oid=oid, oroot=oroot)
+            e = payload(res)
+            desc = e.variant + (':' + payload(e).variant if e.variant == 'Timeout' else '')
+            st.logev('get_err', t, desc)
+            s.set_op(st, t, a, 'dropping', res=('err', desc)); s.M.start_drop(st, th, [e]); return [st]
+        if phase == 'dropping':
+            res = data['res'] if result[0] == 'ok' else result
+            return s.end_op(st, t, a, res, **{k: v for k, v in data.items() if k != 'res'})
+        if phase == 'taking':
+            if result[0] != 'ok': return s.end_op(st, t, a, result, oid=data['oid'])
+            s.W.env.g_obj(st, data['oid'], handed='+1'); st.logev('handed', data['oid'], 'take')
+            s.set_op(st, t, a, 'dropping', res=('ok', 'taken'), oid=data['oid']); s.M.start_drop(st, th, [result[1]]); return [st]
+        if phase == 'simple':
+            if a[0] == 'close' and result[0] == 'ok': st.gset('closed_ret', True)
+            return s.end_op(st, t, a, result)
+        if phase == 'retaining':
+            if result[0] != 'ok': return s.end_op(st, t, a, result)
+            rr = result[1]; removed = rr.f[1].items(); ids = tuple(s.W.env.oid_of(s.M, st, o) for o in removed)
+            for oid in ids:
+                s.W.env.g_obj(st, oid, handed='+1'); st.logev('handed', oid, 'retain')
+            s.set_op(st, t, a, 'dropping', res=('ok', 'retain'), retained=rr.f[0], removed=ids, pred_removed=st.gget('pred_removed', ()))
+            s.M.start_drop(st, th, removed); return [st]
+        raise InternalError('op phase ' + phase)
 
     def obj_id(s, st, obj):
         """ground-truth id of the pooled object inside an Object wrapper (harness-owned identity tag)"""
@@ -181,35 +281,6 @@ class ManagedBSE:
         r = walk(obj)
         if r is None: raise InternalError('Object without pooled value')
         return r
-
-    def after_poll(s, st, t, r, a):
-        L = st.threads[t].local
-        if r[0] != 'ok':
-            # panic escaped get(): the future is dropped by the unwinding caller (state `panicked`: nothing left inside)
-            fr = L.pop('fut'); fut = st.heap.pop(fr)
-            outs = []
-            for st2, r2 in s.W.drop(st, t, [fut]):
-                st2.gset('last', {'act': a, 'task': t, 'res': ('panic',)}); outs.append(st2)
-            return outs
-        p = r[1]
-        if p.variant == 'Pending':
-            st.gset('last', {'act': a, 'task': t, 'res': ('pending',)}); return [st]
-        fr = L.pop('fut'); st.heap.pop(fr)
-        res = payload(p)
-        if res.variant == 'Ok':
-            obj = payload(res); oid = s.obj_id(st, obj)
-            oroot = st.alloc(obj); L['objs'] = L['objs'] + (oroot,)
-            s.W.env.g_obj(st, oid, handouts='+1')
-            st.logev('handout', oid, t)
-            st.gset('last', {'act': a, 'task': t, 'res': ('ok', 'object'), 'oid': oid, 'oroot': oroot})
-            return [st]
-        e = payload(res)
-        desc = e.variant + (':' + payload(e).variant if e.variant == 'Timeout' else '')
-        st.logev('get_err', t, desc)
-        outs = []
-        for st2, r2 in s.W.drop(st, t, [e]):
-            st2.gset('last', {'act': a, 'task': t, 'res': ('err', desc)}); outs.append(st2)
-        return outs
 
     # ------------------------------------------------------------- ghost notes
     def note_get_start(s, st, t, tvs):
@@ -225,7 +296,7 @@ class ManagedBSE:
     def snapshot(s, st):
         """ground truth + real status() (on a scratch copy) for the single-task differential of C03"""
         sc = st.clone()
-        res = s.W.status(sc, 'C', sc.gget('pool'))
+        res = s.W.status(sc, 'S', sc.gget('pool'))
         S = res[0][1][1] if len(res) == 1 and res[0][1][0] == 'ok' else None
         sem = s.semaphore(st)
         return {'status': None if S is None else tuple(S.items()), 'live': tuple(sorted(s.live_ids(st))),
@@ -266,12 +337,31 @@ class ManagedBSE:
     def describe(s, st):
         return {'trace': [list(map(str, e)) for e in st.log if e[0] in ('init', 'act', 'env')], 'pc': [c.sexpr() for c in st.pc]}
 
+    def observe(s, st):
+        """what the native driver prints after every action: status() and the guarded snapshot accessor, both run on the MIR"""
+        if st.gget('pool') is None: return None, None
+        sc = st.clone()
+        r = s.W.status(sc, 'S', sc.gget('pool'))
+        S = r[0][1][1]
+        sc = st.clone()
+        r = s.W.call(sc, 'S', s.W.F('::verif_snapshot'), [Ref(sc.gget('pool'))])
+        N = r[0][1][1]
+        def val(x): return x.v if isinstance(x, I) else (bool(x) if isinstance(x, bool) else repr(x))
+        return [val(S.f[i]) for i in range(4)], {'permits': val(N.f[0]), 'closed': val(N.f[1]), 'size': val(N.f[2]), 'max_size': val(N.f[3]),
+                                                  'users': val(N.f[4]), 'idle': val(N.f[5])}
+
     # ------------------------------------------------------------- oracles
     def live_ids(s, st):
         return [k for k, r in st.gget('objs', {}).items() if r['destroyed'] == 0 and r['handed'] == 0]
 
     def vio(s, prop, what, st, **kw):
-        d = {'property': prop, 'what': what}; d.update(kw); return d
+        d = {'property': prop, 'what': what}; d.update(kw)
+        ms = st.gget('max_size')
+        if isinstance(ms, I): d['model'] = {'max_size': ms.v}
+        else:
+            m = s.M.model(st)
+            d['model'] = {'max_size': m.eval(ms, model_completion=True).as_long()} if m is not None else {}
+        return d
 
     def check(s, st0, a, st):
         out = []
@@ -288,7 +378,7 @@ class ManagedBSE:
             out.append(s.vio('C02', 'self-deadlock on a pool mutex', st)); return out
         for o, r in objs.items():
             if r['destroyed'] > 1: out.append(s.vio(O[0], f'object {o} destroyed twice', st))
-        if 'C01' in O and not st.gget('resizes'):
+        if 'C01' in O and not st.gget('resizes') and not st.gget('close_started'):
             live = len(s.live_ids(st))
             if s.M.feasible(st, z(binop('Gt', I(live), ms))):
                 out.append(s.vio('C01', f'{live} live objects exceed max_size', st))
@@ -300,6 +390,17 @@ class ManagedBSE:
         out = []
         if st.gget('pool') is None: return out
         O = s.cfg['oracles']
+        busy = any(st.threads[t].stack for t in s.tasks + ['C'])
+        if 'C06' in O and st.gget('closed_ret') and not busy:
+            live = len(s.live_ids(st)); out_n = sum(len(st.threads[t].local['objs']) for t in s.tasks)
+            idle = live - out_n - s.in_progress_objs(st)
+            if idle > 0:
+                d = s.vio('C06', f'a closed pool keeps {idle} idle object(s)', st)
+                if st.gget('close_overlap'): d['known'] = 'K-C06'; d['what'] = 'an object returned concurrently with close() stays idle in the closed pool'
+                out.append(d)
+            for t in s.queued_tasks(st):
+                out.append(s.vio('C06', f'{t} is still queued for a slot after close() returned', st))
+        if out and any(not v.get('known') for v in out): return out
         if 'C11' in O: out.extend(s.check_status(st))
         if out: return out
         if 'C02' in O and s.cfg['probe']: out.extend(s.probe(st))
@@ -309,7 +410,7 @@ class ManagedBSE:
     def check_status(s, st):
         out = []
         sc = st.clone()
-        res = s.W.status(sc, 'C', sc.gget('pool'))
+        res = s.W.status(sc, 'S', sc.gget('pool'))
         if len(res) != 1 or res[0][1][0] != 'ok':
             return [s.vio('C11', 'status() did not return normally', st)]
         sc, r = res[0]; S = r[1]
@@ -319,24 +420,25 @@ class ManagedBSE:
         queued = s.queued_tasks(st)
         out_n = sum(len(st.threads[t].local['objs']) for t in s.tasks)
         idle = live - out_n - s.in_progress_objs(st)
-        at_rest = all(t in queued for t in pending)
+        busy = any(st.threads[t].stack for t in s.tasks + ['C'])
+        at_rest = all(t in queued for t in pending) and not busy
         closed = st.gget('closed_ret')
         exp_max = I(0) if closed else (I(st.gget('resizes')[-1]) if st.gget('resizes') else st.gget('max_size'))
         def ne(x, y): return s.M.feasible(sc, z(binop('Ne', x, y)))
         def gt(x, y): return s.M.feasible(sc, z(binop('Gt', x, y)))
-        if ne(smax, exp_max): out.append(s.vio('C11', f'status().max_size differs from the configured / last resized value', st))
+        if not busy and ne(smax, exp_max): out.append(s.vio('C11', f'status().max_size differs from the configured / last resized value', st))
         if at_rest:
             if ne(ssize, I(live)): out.append(s.vio('C11', f'at rest status().size != {live} objects that exist', st, status=repr(S)))
             if ne(savail, I(idle)): out.append(s.vio('C11', f'at rest status().available != {idle} idle objects', st, status=repr(S)))
             if ne(swait, I(len(queued))): out.append(s.vio('C11', f'at rest status().waiting != {len(queued)} blocked callers', st, status=repr(S)))
         else:
-            creating = len(pending)
+            creating = len(pending) + sum(1 for t in s.tasks if st.threads[t].stack)
             if gt(ssize, I(live + creating)): out.append(s.vio('C11', 'status().size exceeds objects that exist or are being created', st, status=repr(S)))
             if gt(savail, ssize): out.append(s.vio('C11', 'status().available exceeds size', st, status=repr(S)))
-            if gt(swait, I(len(pending))): out.append(s.vio('C11', 'status().waiting exceeds callers inside get()', st, status=repr(S)))
+            if gt(swait, I(creating)): out.append(s.vio('C11', 'status().waiting exceeds callers inside get()', st, status=repr(S)))
         for v in (ssize, savail, swait):
             if gt(v, I(1 << 62)): out.append(s.vio('C11', 'a status counter wrapped around', st, status=repr(S)))
-        if not st.gget('resizes') and not closed and gt(ssize, smax):
+        if not st.gget('resizes') and not st.gget('close_started') and gt(ssize, smax):
             out.append(s.vio('C11', 'status().size exceeds max_size without any shrink', st, status=repr(S)))
         return out
 
@@ -381,72 +483,61 @@ class ManagedBSE:
     # end-of-history probe: cancel everything, return everything, then exactly max_size non-blocking gets succeed
     def probe(s, st):
         if st.gget('closed_ret') or st.gget('resizes'): return []
+        return s.capacity_probe(st, st.gget('max_size'), 'C02')
+
+    def capacity_probe(s, st, expected, prop):
         s.nprobes += 1
-        sc = st.clone(); sc.log = ()
+        sc = st.clone(); n0 = len(sc.log)
         M = s.M
-        saved = dict(s.W.env.cfg)
+        saved = dict(s.W.env.cfg); saved_tv = list(s.cfg['timeout_variants']); saved_tasks = list(s.tasks); saved_mode = M.task_mode
         s.W.env.cfg.update({'create': ('ok',), 'recycle': ('ok',), 'hook': ('ok',), 'timer': False})
+        s.cfg['timeout_variants'] = saved_tv + [('zero', None, None)]; zi = len(saved_tv)
+        s.tasks = saved_tasks + ['P']; M.task_mode = True
+        th = s.W.thread(sc, 'P')
+        if not th.local: th.local = {'gets': 0, 'objs': (), 'nctl': 0}
         try:
             cur = [sc]
-            for t in s.tasks:
+            def step(states, act_of):
+                nxt = []
+                for x in states:
+                    a = act_of(x)
+                    if a is None: nxt.append(x)
+                    else: nxt.extend(s.apply(x, a))
+                return nxt
+            for t in saved_tasks:
+                cur = step(cur, lambda x: ('cancel', t) if 'fut' in x.threads[t].local else None)
+                for _ in range(8):
+                    if not any(x.threads[t].local['objs'] for x in cur): break
+                    cur = step(cur, lambda x: ('drop', t, 0) if x.threads[t].local['objs'] else None)
+            out = []
+            bound = s.cfg['max_size_bound'] + (max(s.cfg['resize_targets']) if s.cfg['ctl'] else 0) + 1
+            final = []
+            for i in range(bound + 1):
                 nxt = []
                 for x in cur:
-                    L = x.threads[t].local
-                    if 'fut' in L:
-                        fut = x.heap.pop(L.pop('fut'))
-                        nxt.extend(y for y, r in s.W.drop(x, t, [fut]))
-                    else: nxt.append(x)
+                    if x.gget('deadpool_panics'):
+                        out.append(s.vio(prop, 'panic inside deadpool while draining the pool: ' + x.gget('deadpool_panics')[-1], st)); continue
+                    for y in s.apply(x, ('get', 'P', zi)):
+                        res = (y.gget('last') or {}).get('res')
+                        if res and res[:2] == ('ok', 'object'): nxt.append(y)
+                        else: final.append((y, res))
                 cur = nxt
-                while True:
-                    nxt = []; any_obj = False
-                    for x in cur:
-                        L = x.threads[t].local
-                        if L['objs']:
-                            any_obj = True
-                            objs = list(L['objs']); o = x.heap.pop(objs.pop(0)); L['objs'] = tuple(objs)
-                            nxt.extend(y for y, r in s.W.drop_object(x, t, o))
-                        else: nxt.append(x)
-                    cur = nxt
-                    if not any_obj: break
-            out = []
-            tv = Agg('Timeouts', [some(dur(0)), NONE, NONE])
-            bound = s.cfg['max_size_bound'] + 1
-            for x in cur:
-                if x.gget('deadpool_panics'):
-                    out.append(s.vio('C02', 'panic inside deadpool while draining the pool: ' + x.gget('deadpool_panics')[-1], st)); continue
-                got = 0; states = [x]
-                final = []
-                for i in range(bound + 1):
-                    nxt = []
-                    for y in states:
-                        for y1, r in s.W.start_get(y, 'C', y.gget('pool'), tv):
-                            fr = y1.alloc(r[1])
-                            for y2, r2 in s.W.poll(y1, 'C', fr):
-                                if r2[0] != 'ok': out.append(s.vio('C02', 'probe get panicked', st)); continue
-                                p = r2[1]
-                                if p.variant == 'Pending':
-                                    out.append(s.vio('C02', 'non-blocking get returned Pending', st)); continue
-                                y2.heap.pop(fr, None)
-                                res = payload(p)
-                                if res.variant == 'Ok':
-                                    y2.gset('probe_n', y2.gget('probe_n', 0) + 1)
-                                    y2.gset('probe_objs', y2.gget('probe_objs', ()) + (payload(res),))
-                                    nxt.append(y2)
-                                else:
-                                    final.append((y2, payload(res)))
-                    states = nxt
-                    if not states: break
-                for y in states:
-                    out.append(s.vio('C02', f'pool handed out more than max_size objects concurrently in the capacity probe', st))
-                for y, e in final:
-                    n = y.gget('probe_n', 0)
-                    if e.variant != 'Timeout':
-                        out.append(s.vio('C02', f'capacity probe ended with {e.variant} instead of Timeout(Wait)', st)); continue
-                    if M.feasible(y, z(binop('Ne', I(n), y.gget('max_size')))):
-                        out.append(s.vio('C02', f'capacity after the history is {n}, not max_size (capacity lost or gained)', st, got=n))
+                if not cur: break
+            def steps(y): return [list(map(str, e)) for e in y.log[n0:] if e[0] in ('act', 'env')]
+            from .replay import split_actions
+            for y in cur:
+                out.append(dict(s.vio(prop, 'the capacity probe obtained more objects concurrently than the bound allows', st), probe_log=steps(y)))
+            for y, res in final:
+                n = len(y.threads['P'].local['objs'])
+                if res is None or res[0] != 'err' or res[1] != 'Timeout:Wait':
+                    out.append(dict(s.vio(prop, f'capacity probe ended with {res} instead of Timeout(Wait)', st), probe_log=steps(y))); continue
+                if M.feasible(y, z(binop('Ne', I(n), expected))):
+                    d = s.vio(prop, f'after the history the pool hands out {n} objects concurrently, not the configured capacity (capacity lost or gained)', y)
+                    d['probe_log'] = steps(y); d['got'] = n
+                    out.append(d)
             return out[:1]
         finally:
-            s.W.env.cfg.clear(); s.W.env.cfg.update(saved)
+            s.W.env.cfg.clear(); s.W.env.cfg.update(saved); s.cfg['timeout_variants'] = saved_tv; s.tasks = saved_tasks; M.task_mode = saved_mode
 
 
 # ====================================================================== event digest: C03 C04 C06 C07 C08 C09 C10 C13
@@ -526,7 +617,8 @@ def _digest(s, st0, a, st):
                     vio('C05' if False else 'C09', f'idle object {e[1]} destroyed by {a[0]}')
     # ---- end of a get() call on this action?
     res = last.get('res')
-    if a[0] in ('get', 'poll', 'cancel') and cur is not None and res and res[0] != 'pending':
+    done = last.get('done', True)
+    if a[0] in ('get', 'poll', 'cancel') and cur is not None and res and res[0] != 'pending' and done:
         handed = last.get('oid') if res[:2] == ('ok', 'object') else None
         if handed is not None:
             tr = trail.get(handed, ())
@@ -538,7 +630,7 @@ def _digest(s, st0, a, st):
             if objs[handed]['destroyed'] or objs[handed]['detached'] or objs[handed]['handed']:
                 vio('C04', f'object {handed} handed out after it was discarded/detached')
             trail[handed] = ()
-            if cur['after_close'] and not thread_mode:
+            if cur['after_close']:
                 vio('C06', 'get() issued after close() returned yielded an object')
             _check_handout_metrics(s, st, shadow, objs, handed, last, vio)
         for oid in cur['inhand']:
@@ -552,21 +644,21 @@ def _digest(s, st0, a, st):
         if res[0] in ('cancelled', 'panic') or (res[0] == 'err' and res[1].startswith('Timeout')):
             _check_abandon(s, st, cur, res, vio)
         calls.pop(actor, None)
-    elif a[0] in ('get', 'poll') and cur is not None and res and res[0] == 'pending':
+    elif a[0] in ('get', 'poll') and cur is not None and res and res[0] == 'pending' and done:
         tv = cur['tv'] if cur['tv'] is not None else s.cfg['pool_timeouts']
         if tv[0] == 'zero' and s.queued_for(st, actor):
             vio('C10', 'get() with a zero wait timeout is waiting for a slot')
     if a[0] not in ('get', 'poll', 'cancel'):
         for o in calls: calls[o] = dict(calls[o], clean=False)
     # ---- object returned
-    if a[0] == 'drop' and res and res[0] == 'ok':
+    if a[0] == 'drop' and res and res[0] == 'ok' and done:
         oid = last['oid']; r = objs[oid]
         if r['destroyed'] == 0:
             idleq.append(oid)
-            if st.gget('closed_ret') and not thread_mode:
+            if last.get('after_close'):
                 vio('C06', f'object {oid} returned after close() is kept by the closed pool')
     # ---- retain
-    if a[0] == 'retain' and res and res[0] == 'ok':
+    if a[0] == 'retain' and res and res[0] == 'ok' and done:
         pr = tuple(last['pred_removed']); rm = tuple(last['removed'])
         if pr != rm: vio('C09', f'retain() removed {rm} but the predicate rejected {pr}')
         kept = sum(1 for e in ev if e[0] == 'env' and e[1] == 'pred' and e[3] == 'keep')
@@ -587,7 +679,7 @@ def _digest(s, st0, a, st):
             elif rel or any(e[0] == 'handed' and e[1] == oid for e in ev):
                 vio('C09', f'object {oid} left the pool ({a[0]}) but Manager::detach was called {r["detached"]} times')
     # ---- close / resize post-conditions (ground truth)
-    if a[0] in ('resize', 'close') and res and res[0] == 'ok' and not thread_mode:
+    if a[0] in ('resize', 'close') and res and res[0] == 'ok' and not thread_mode and done:
         n = 0 if a[0] == 'close' else a[1]
         live = len(s.live_ids(st))
         if not st0.gget('closed_ret') or a[0] == 'close':
